@@ -113,3 +113,98 @@ theorem tagTriple_at : TagAt tagTriple.tag.src 100 tagTriple.tag.toks := tagAt_o
 theorem tagAmp_at : TagAt tagAmp.tag.src 100 tagAmp.tag.toks := tagAt_of_decided _ _ (by decide)
 
 end Hbs.PlainText
+
+namespace Hbs.PlainText
+open Hbs Hbs.Pest Hbs.Grammar
+
+/-! ### other spellings of the same path: `{{this.v}}`, `{{./v}}`, `{{this/v}}`, `{{ v }}` -/
+
+/-- the value expression of the one-segment path `v` written as `raw` -/
+def valHTr (raw : Str) : HelperT :=
+  HelperG.new { name := .path (Path.new raw [.named ['v']]), params := [], hash := [], blockParam := none, omitPreWs := false, omitProWs := false }
+    false false false
+
+theorem valHTr_v : valHTr ['v'] = valHT := rfl
+
+/-- the pairs of a value tag whose path text is `rs..re` and whose only named segment `v` stands at `io` -/
+def pathToks (rs re io len : Nat) : List (Tok Rule) :=
+  [⟨some .r_expression, 0, len⟩, ⟨some .r_reference, rs, re⟩, ⟨some .r_path_inline, rs, re⟩, ⟨some .r_path_id, io, io + 1⟩]
+
+theorem step_path_tag (raw : Str) (rs re io len : Nat) (h1' : io + 1 ≤ re) (h2' : re < len) (src : Str) (opts : TemplateOptions) (f a : Nat) (T0 : Tmpl)
+    (ep : Option Nat) (r0 : CTok) (rest : List CTok)
+    (hraw : tokStr src ⟨some .r_reference, rs + a, re + a, []⟩ = raw)
+    (hv : tokStr src ⟨some .r_path_id, io + a, io + 1 + a, []⟩ = ['v']) (hep : ep.getD 0 = a) (hr0 : a + len ≤ r0.e) :
+    compileLoop src opts (f + 3 + 1) { tmplStack := [T0], endPos := ep }
+        ((pathToks rs re io len).map (fun x => plainCTok (shiftTok a x)) ++ r0 :: rest)
+      = compileLoop src opts (f + 3)
+          { tmplStack := [T0.pushElement (.expr (valHTr raw)) (lineCol src a).1 (lineCol src a).2], endPos := some (a + len) }
+          (r0 :: rest) := by
+  have h1 : ¬ (r0.e < a + len) := by omega
+  have h2 : re + a < r0.e := by omega
+  have h3 : len + a = a + len := by omega
+  have h4 : ¬ (re + a < io + 1 + a) := by omega
+  simp [pathToks, compileLoop, plainCTok, shiftTok, compileStep, hep, isBlockStart, isExprLike, parseExpression, parseName, parsePathSegs,
+    parseExprLoop, hv, hraw, h1, h2, h3, h4, frontMut, valHTr, str]
+
+theorem step_path_tag_gap (raw : Str) (rs re io len : Nat) (h1' : io + 1 ≤ re) (h2' : re < len) (src : Str) (opts : TemplateOptions) (f g a : Nat)
+    (W : Str) (T0 : Tmpl) (r0 : CTok) (rest : List CTok)
+    (hraw : tokStr src ⟨some .r_reference, rs + a, re + a, []⟩ = raw)
+    (hv : tokStr src ⟨some .r_path_id, io + a, io + 1 + a, []⟩ = ['v']) (hga : a ≠ g) (hgap : slice? src g a = some W) (hr0 : a + len ≤ r0.e) :
+    compileLoop src opts (f + 3 + 1) { tmplStack := [T0], endPos := some g }
+        ((pathToks rs re io len).map (fun x => plainCTok (shiftTok a x)) ++ r0 :: rest)
+      = compileLoop src opts (f + 3)
+          { tmplStack := [(T0.pushElement (.raw W) (lineCol src a).1 (lineCol src a).2).pushElement (.expr (valHTr raw))
+              (lineCol src a).1 (lineCol src a).2], endPos := some (a + len) }
+          (r0 :: rest) := by
+  have h1 : ¬ (r0.e < a + len) := by omega
+  have h2 : re + a < r0.e := by omega
+  have h3 : len + a = a + len := by omega
+  have h4 : ¬ (re + a < io + 1 + a) := by omega
+  simp [pathToks, compileLoop, plainCTok, shiftTok, compileStep, hga, hgap, rawString, isBlockStart, isExprLike, parseExpression, parseName,
+    parsePathSegs, parseExprLoop, hv, hraw, h1, h2, h3, h4, frontMut, valHTr, str]
+
+/-- the compiled tag of a spelling: its text after `{{`, the span of the path text and the offset of `v` -/
+def pathTag (T' : Str) (rs re io : Nat) (h1 : rs ≤ re) (h2 : io + 1 ≤ re) (h3 : re < T'.length + 2)
+    (hv : (('{' :: '{' :: T').drop io).take 1 = ['v']) : CTag where
+  tag := ⟨T', pathToks rs re io (T'.length + 2)⟩
+  el := .expr (valHTr ((('{' :: '{' :: T').drop rs).take (re - rs)))
+  noEsc := by
+    intro x hx
+    simp only [pathToks, List.mem_cons, List.not_mem_nil, or_false] at hx
+    rcases hx with rfl | rfl | rfl | rfl <;> rfl
+  nonempty := by simp [pathToks]
+  step := by
+    intro src opts f a T0 ep r0 rest hin hep hr0
+    have hvv : tokStr src ⟨some .r_path_id, io + a, io + 1 + a, []⟩ = ['v'] := by
+      have := tokStr_of_slice src _ a (T'.length + 2) io (io + 1) (some .r_path_id) hin (by omega) (by omega)
+      rw [this, show io + 1 - io = 1 by omega]; exact hv
+    have hrr := tokStr_of_slice src _ a (T'.length + 2) rs re (some .r_reference) hin h1 (by omega)
+    exact step_path_tag _ rs re io (T'.length + 2) h2 h3 src opts f a T0 ep r0 rest hrr hvv hep hr0
+  stepGap := by
+    intro src opts f g a W T0 r0 rest hin hga hgap hr0
+    have hvv : tokStr src ⟨some .r_path_id, io + a, io + 1 + a, []⟩ = ['v'] := by
+      have := tokStr_of_slice src _ a (T'.length + 2) io (io + 1) (some .r_path_id) hin (by omega) (by omega)
+      rw [this, show io + 1 - io = 1 by omega]; exact hv
+    have hrr := tokStr_of_slice src _ a (T'.length + 2) rs re (some .r_reference) hin h1 (by omega)
+    exact step_path_tag_gap _ rs re io (T'.length + 2) h2 h3 src opts f g a W T0 r0 rest hrr hvv hga hgap hr0
+
+/-- `{{this.v}}` -/
+def tagThisDot : CTag := pathTag ['t', 'h', 'i', 's', '.', 'v', '}', '}'] 2 8 7 (by decide) (by decide) (by decide) (by decide)
+/-- `{{this/v}}` -/
+def tagThisSlash : CTag := pathTag ['t', 'h', 'i', 's', '/', 'v', '}', '}'] 2 8 7 (by decide) (by decide) (by decide) (by decide)
+/-- `{{./v}}` -/
+def tagDotSlash : CTag := pathTag ['.', '/', 'v', '}', '}'] 2 5 4 (by decide) (by decide) (by decide) (by decide)
+/-- `{{ v }}` -/
+def tagSpaced : CTag := pathTag [' ', 'v', ' ', '}', '}'] 3 4 3 (by decide) (by decide) (by decide) (by decide)
+
+theorem tagThisDot_at : TagAt tagThisDot.tag.src 150 tagThisDot.tag.toks := tagAt_of_decided _ _ (by decide)
+theorem tagThisSlash_at : TagAt tagThisSlash.tag.src 150 tagThisSlash.tag.toks := tagAt_of_decided _ _ (by decide)
+theorem tagDotSlash_at : TagAt tagDotSlash.tag.src 150 tagDotSlash.tag.toks := tagAt_of_decided _ _ (by decide)
+theorem tagSpaced_at : TagAt tagSpaced.tag.src 150 tagSpaced.tag.toks := tagAt_of_decided _ _ (by decide)
+
+theorem tagThisDot_el : tagThisDot.el = .expr (valHTr ['t', 'h', 'i', 's', '.', 'v']) := rfl
+theorem tagThisSlash_el : tagThisSlash.el = .expr (valHTr ['t', 'h', 'i', 's', '/', 'v']) := rfl
+theorem tagDotSlash_el : tagDotSlash.el = .expr (valHTr ['.', '/', 'v']) := rfl
+theorem tagSpaced_el : tagSpaced.el = .expr (valHTr ['v']) := rfl
+
+end Hbs.PlainText
